@@ -1,6 +1,6 @@
 #!/bin/sh
 # usage: tools/run_all.sh [quick|thorough]  -- runs every registered check on the current tree, prints one line per check
-cd /verif
+cd "$(dirname "$0")/.."
 tier=${1:-quick}
 rc=0
 for i in 01 02 03 04 05 06 07 08 09 10 11 12 13 14 15 16 17 18 19 20; do
